@@ -204,6 +204,15 @@ class Gen:
         self.assign_indices(vs)
         D.append({'kind': 'enum', 'name': 'E%d' % len(D), 'variants': vs, 'generics': []})
         count += 1
+        # neighbouring variants with the SAME field types but different attributes (skip / compact / plain): the lengths differ
+        for attrs_ in (('skip', 'none'), ('none', 'compact'), ('compact', 'none', 'skip'), ('encoded_as', 'none')):
+            vs = []
+            for i, a_ in enumerate(attrs_):
+                kind = 'named' if i % 2 == 0 else 'tuple'
+                vs.append({'name': 'V%d' % i, 'fields': [self.fld(0, 3, a_, kind == 'named')], 'skip': False, 'src': 'implicit', 'kind': kind})
+            self.assign_indices(vs)
+            D.append({'kind': 'enum', 'name': 'E%d' % len(D), 'variants': vs, 'generics': []})
+            count += 1
         # the largest enum the format allows: 256 encodable variants (implicit indices 0..=255), the last ones with fields
         vs = []
         for i in range(256):
